@@ -6,6 +6,7 @@ import (
 	"errors"
 	"io"
 	"net"
+	"os"
 	"sync"
 	"time"
 
@@ -18,6 +19,9 @@ import (
 type ScriptConn struct {
 	mu      sync.Mutex
 	chunks  [][]byte
+	gaps    []time.Duration // gaps[i]: how long chunk i arrives after chunk i-1 was read
+	avail   time.Time       // when the next chunk becomes available
+	rdl     time.Time       // read deadline
 	idx     int
 	closed  chan struct{}
 	once    sync.Once
@@ -33,12 +37,28 @@ func NewScriptConn(chunks [][]byte) *ScriptConn {
 func (c *ScriptConn) Read(p []byte) (int, error) {
 	c.mu.Lock()
 	if c.idx < len(c.chunks) {
+		// the chunk may not have "arrived" yet: wait for it, or for the read deadline
+		if wait := time.Until(c.avail); wait > 0 {
+			dl := c.rdl
+			c.mu.Unlock()
+			if !dl.IsZero() && time.Until(dl) < wait {
+				if d := time.Until(dl); d > 0 {
+					time.Sleep(d)
+				}
+				return 0, os.ErrDeadlineExceeded
+			}
+			time.Sleep(wait)
+			c.mu.Lock()
+		}
 		ch := c.chunks[c.idx]
 		n := copy(p, ch)
 		if n < len(ch) {
 			c.chunks[c.idx] = ch[n:]
 		} else {
 			c.idx++
+			if c.idx < len(c.gaps) {
+				c.avail = time.Now().Add(c.gaps[c.idx])
+			}
 			if c.idx == len(c.chunks) {
 				close(c.consumed)
 			}
@@ -46,7 +66,17 @@ func (c *ScriptConn) Read(p []byte) (int, error) {
 		c.mu.Unlock()
 		return n, nil
 	}
+	dl := c.rdl
 	c.mu.Unlock()
+	if !dl.IsZero() {
+		// an idle connection with a read deadline: time out instead of blocking for ever
+		select {
+		case <-c.closed:
+			return 0, io.EOF
+		case <-time.After(time.Until(dl)):
+			return 0, os.ErrDeadlineExceeded
+		}
+	}
 	<-c.closed
 	return 0, io.EOF
 }
@@ -66,8 +96,13 @@ func (c *ScriptConn) Write(p []byte) (int, error) {
 func (c *ScriptConn) Close() error                       { c.once.Do(func() { close(c.closed) }); return nil }
 func (c *ScriptConn) LocalAddr() net.Addr                { return &net.TCPAddr{} }
 func (c *ScriptConn) RemoteAddr() net.Addr               { return &net.TCPAddr{} }
-func (c *ScriptConn) SetDeadline(t time.Time) error      { return nil }
-func (c *ScriptConn) SetReadDeadline(t time.Time) error  { return nil }
+func (c *ScriptConn) SetDeadline(t time.Time) error      { return c.SetReadDeadline(t) }
+func (c *ScriptConn) SetReadDeadline(t time.Time) error {
+	c.mu.Lock()
+	c.rdl = t
+	c.mu.Unlock()
+	return nil
+}
 func (c *ScriptConn) SetWriteDeadline(t time.Time) error { return nil }
 func (c *ScriptConn) IsClosed() bool {
 	select {
@@ -116,6 +151,7 @@ func (b B) bytes() []byte {
 type ConnScript struct {
 	Sent   []B   `json:"sent"`   // messages the peer sends on this connection
 	Chunks []int `json:"chunks"` // sizes of the read chunks (sum = total stream length)
+	GapsMs []int `json:"gapsMs"` // read timing: chunk i arrives this long after chunk i-1 was read (missing: at once)
 	Out    int   `json:"out"`    // number of outbound messages to hand to this connection
 }
 
@@ -225,6 +261,9 @@ func RunFraming(sc *FScenario) ([]FrameObs, string) {
 	}, n)
 	for i := range sc.Conns {
 		conns[i] = NewScriptConn(chunksOf(&sc.Conns[i]))
+		for _, g := range sc.Conns[i].GapsMs {
+			conns[i].gaps = append(conns[i].gaps, time.Duration(g)*time.Millisecond)
+		}
 		recs[i] = &rec{}
 	}
 	var cleanup func()
@@ -268,7 +307,11 @@ func RunFraming(sc *FScenario) ([]FrameObs, string) {
 	// inbound half: wait until every connection delivered what its peer sent (or time out)
 	for i := range sc.Conns {
 		i := i
-		waitFor(2*time.Second, func() bool {
+		total := 2 * time.Second
+		for _, g := range sc.Conns[i].GapsMs {
+			total += time.Duration(g) * time.Millisecond
+		}
+		waitFor(total, func() bool {
 			recs[i].mu.Lock()
 			defer recs[i].mu.Unlock()
 			return len(recs[i].delivered) >= len(sc.Conns[i].Sent)
